@@ -24,11 +24,17 @@ jobs read their page files at the same time and requests arrive while a completi
 what the writer left, as everywhere.  The scripted clock gives wall time, monotonic time and perf_counter unrelated epochs (as on a real
 machine): the oracle speaks of the scripted instants only, so a stamp and a reading taken from different clocks show as a reader that is
 not protected (or never evicted).
+Stream `clients` (harness/c09_client.py): the other streams speak the protocol themselves, one request at a time; here the REAL
+cascade.shm.client functions are run by several threads of one process (the pool of the data server) against the same real server, over a
+datagram network of ours in which an answer goes to the socket its request came from and a recv takes whatever waits at its socket; a
+schedule says which thread / the server / a disk job takes the next leg.  Oracle: bytes, size and deser_fun seen under a key, a call fails
+iff the store refused it, readers are closed under the key and id they were granted, nothing is left open, every call returns.
 Correspondence: every op list (incl. the epilogue) is evaluated by the Coq model and compared output by output; the model validates
 the reader id that was handed out (it must not be the id of an ongoing read) instead of predicting it."""
 import itertools
 import time as _time
 
+import c09_client as CL
 import shm_common as S
 from common import coq_results, load_findings
 
@@ -42,6 +48,11 @@ TRUSTED = [
     "instead of blocking); any other blocking call is decided by a watchdog (no progress while every thread of the history sleeps in the kernel at the same "
     "instruction, read from /proc/self/task/*/stat and sys._current_frames)",
     "the oracle's own bookkeeping of generations, writers' closes and granted readers is derived from the requests and responses only",
+    "stream clients (harness/c09_client.py): inside cascade.shm.client the names socket, time, SharedMemory and multiprocessing are replaced: every socket the "
+    "client code makes has a receive buffer of its own, the server answers to the socket a request came from (lost when closed meanwhile), datagrams of one "
+    "socket keep their order, nothing else is lost, no recv times out; client threads are real threads run one at a time from yield point to yield point "
+    "(after send, before recv, in sleep, before a segment is created / attached) by a schedule that is part of the case; a thread blocked in a primitive of "
+    "the implementation is left alone until it comes back (schedules are then no longer exactly repeatable)",
 ]
 ASSUMPTIONS = [
     "atomicity of request handlers and of each half of a disk job (as for C08); every order of these steps is covered; finer than that (stream conc): "
@@ -66,6 +77,11 @@ ASSUMPTIONS = [
     "failed-pageout-under-stale-reader-stuck): the oracle gives that signature only to a dataset left in paging_out after the callback of ITS failed "
     "page-out ran while a reader held it; any other dataset left in paging_out without a pending job is `stuck-in-paging-out`, any other wait-for-ever "
     "`eviction-stuck` / `hang-*`",
+    "C09_client_call_gets_its_own_answer / C09_disciplined_clients_never_mispaired (Shm/ClientRpc.v): loopback datagrams of one socket are neither lost, "
+    "duplicated nor reordered, the server answers every request exactly once to the address it came from, and the client keeps to the discipline (a request "
+    "is sent on a socket with no unanswered request by a thread with none, the answer is awaited by that thread however late it comes): the discipline is "
+    "checked on the datagram events of every history of stream clients; answers later than the client's response timeout (a resent request) are C07's "
+    "subject and are not generated here",
     "C09_reader_table_exact speaks of ids as the store sees them; clients are assumed to close with the id they were given (malformed closes are generated "
     "too, the oracle then stops tracking that dataset)",
 ]
@@ -741,7 +757,9 @@ def run(ctx, res):
                 "non-trivial when a read was granted after the dataset went to disk and back, or a purge was delayed by a reader, or an eviction round ran "
                 "while a fresh reader held a dataset; distinct = distinct (capacity, op list).  Streams overlap (3+ overlapping readers of one key closed "
                 "out of order, then pressure/purge) and faults (failing page-outs with the segment present, failing page-ins) are counted in the histogram "
-                "(histories-with-three_overlapping_readers, -closed_out_of_order, event:*)")
+                "(histories-with-three_overlapping_readers, -closed_out_of_order, event:*).  Stream clients: a history (prelude, scripts of 2-5 client "
+                "threads running the real cascade.shm.client, a schedule) is non-trivial when requests of two threads were queued at the server at the "
+                "same time and a read was granted and compared")
     streams = [("corpus", c, o) for c, o in corpus()]
     rng = ctx.sub_rng("readers")
     for _ in range(ctx.n(500, 12000)):
@@ -839,6 +857,10 @@ def run(ctx, res):
             if not any(b[0] == sig for b in bad):
                 res.disagree(f"the witness of {name} ({sig}) no longer fails on the implementation: the model is out of date",
                              {"capacity": wcap, "ops": wops, "observations": obs})
+        # the store as its clients reach it: the real cascade.shm.client run by several threads of one process
+        t_cl = _time.time()
+        cterms, cmetas = ([], []) if hangs >= 3 else CL.run_stream(ctx, res, env, ctx.n(260, 6000), ctx.n(20, 600))
+        stream_s["clients"] = _time.time() - t_cl
     # the lock model (Shm/ManagerLocks.v) against the events seen on Manager.pageout_one.  Which sections a store takes is not part of
     # the property (only that nothing blocks, which the watchdog decides): a difference is recorded, it is not a verdict
     t_impl = _time.time()
@@ -856,6 +878,7 @@ def run(ctx, res):
     results, logs = coq_results("C09", S.HEADER, terms, "check_case", tag="hist", shard=250)
     fresults, flogs = coq_results("C09", S.HEADER, fterms, "check_fcase", tag="fine", shard=250) if fterms else ([], [])
     res.count("compared:fine-grained-histories", len(fresults))
+    CL.correspond(res, cterms, cmetas)
     res.extra["phase_s"] = {"implementation+oracle": round(t_impl - t_start, 1), "coq-correspondence": round(_time.time() - t_impl, 1),
                             "per-stream": {k: round(v, 1) for k, v in stream_s.items()}}
     results, logs, metas = results + fresults, logs + flogs, metas + fmetas
@@ -879,6 +902,11 @@ def search(ctx, res):
             c, o = [reader_history, S.pressure_history, S.gen_history, S.rewrite_history, S.midpurge_history, overlap_history,
                     fault_history, stuck_history, S.conc_history][i % 9](rng)
             yield S.with_config(rng, c), o
+    if any((d.get("case") or {}).get("stream", "").startswith("clients") for d in res.disagreements):
+        with S.patched() as env:
+            found = CL.search(ctx, env)
+        if found:
+            return CL.shrink(ctx, found)
     with S.patched() as env:
         for cap, ops in itertools.chain(first, corpus(), many()):
             d, ops2, obs, crash, bad, w, ep = evaluate(env, cap, ops)
@@ -889,6 +917,8 @@ def search(ctx, res):
 
 
 def shrink(ctx, f):
+    if str((f.get("case") or {}).get("stream", "")).startswith("clients"):
+        return CL.shrink(ctx, f)
     cap, ops, sig = f["case"]["capacity"], list(f["case"]["ops"]), f["signature"]
     with S.patched() as env:
         def still(o):
@@ -916,6 +946,8 @@ def shrink(ctx, f):
 
 def replay(ctx, case):
     c = case.get("case") or (case.get("first_disagreement") or {}).get("case") or case
+    if str(c.get("stream", "")).startswith("clients"):
+        return CL.replay(ctx, c)
     ops, cap = c.get("ops"), c.get("capacity")
     if not ops:
         return {"fails": None, "note": "no op list in this replay file"}
